@@ -27,6 +27,7 @@ type specEnv struct {
 	callArgs []Val
 	fnScope  *ssa.Function
 	pkg      *ssa.Package
+	inBody   bool // call anchor inside a loop body: $i is the current iteration's index
 	qdepth   int
 	nq       *int
 }
@@ -460,6 +461,10 @@ func (env *specEnv) dollar(name string) (Val, error) {
 			v, ok := env.st.locals[li.rangeIdx]
 			if !ok {
 				return Val{}, fmt.Errorf("$i: range index not live")
+			}
+			if env.inBody {
+				// in a call anchor inside the body: the index of the current iteration
+				return Val{Typ: tInt, T: []Term{v.T[0]}}, nil
 			}
 			return Val{Typ: tInt, T: []Term{app(SInt, "+", v.T[0], intLit(1))}}, nil
 		}
@@ -1475,7 +1480,8 @@ func (env *specEnv) havocTarget(x *Expr, st *State) error {
 	}
 	if x.Op == "ident" && x.Name == "ghosts" {
 		// every ghost family (library objects' abstract state)
-		for name, sf := range e.specFuncs {
+		for _, name := range sortedKeys(e.specFuncs) {
+			sf := e.specFuncs[name]
 			if !sf.Ghost {
 				continue
 			}
